@@ -76,7 +76,7 @@ pub async fn start_system(cfg: &Config, client_server_host: &str, client_server_
     tokio::task::yield_now().await;
     let want_server_tcp = matches!(cfg.server_mode.as_str(), "tcp" | "tcp_and_udp") || cfg.proto != Proto::Shadowsocks;
     let ok = settle(|| {
-        (!want_server_tcp || cfg.transport == Transport::Quic || tcp_listening(SERVER_PORT))
+        (if cfg.transport == Transport::Quic { udp_bound(SERVER_PORT) } else { !want_server_tcp || tcp_listening(SERVER_PORT) })
             && (cfg.client_mode == "udp" || tcp_listening(CLIENT_PORT))
             && (cfg.client_mode == "tcp" || udp_bound(CLIENT_PORT))
     })
